@@ -523,11 +523,14 @@ class Sim:
             raise V('text-view-inconsistent', 'soup.text is %r, text leaves in document order are %r'
                     % (tx[:8], etx[:8]))
         # search
-        names = sorted({n.name for n in mdesc if n.kind in ('cmd', 'env')}) + ['absentname']
+        # \(..\) and \[..\] are environments named 'math' / 'displaymath'
+        def named(n):
+            return n.kind in ('cmd', 'env') or (n.kind == 'math' and n.name in ('math', 'displaymath'))
+        names = sorted({n.name for n in mdesc if named(n)}) + ['absentname']
         for name in names:
             found = view('find_all', lambda: soup.find_all(name))
             g = collections.Counter(str(x) for x in found)
-            e = collections.Counter(n.ser() for n in mdesc if n.kind in ('cmd', 'env') and n.name == name)
+            e = collections.Counter(n.ser() for n in mdesc if named(n) and n.name == name)
             if g != e:
                 raise V('search-inconsistent', 'find_all(%r) gives %r, the document has %r'
                         % (name, sorted(g.elements())[:4], sorted(e.elements())[:4]))
